@@ -101,6 +101,77 @@ type ins struct {
 	text string
 }
 
+// syncOps: method names of mutexes, atomics and sync.Map. Other types have
+// methods of these names too; a scheduling point there is harmless.
+var syncOps = map[string]bool{
+	"Lock": true, "RLock": true,
+	"Inc": true, "Dec": true, "Add": true, "Sub": true, "Load": true, "Store": true, "Swap": true, "CAS": true, "CompareAndSwap": true,
+	"LoadOrStore": true, "LoadAndDelete": true, "Delete": true, "Range": true,
+}
+
+// opIn returns the first synchronisation operation called in the expressions
+// that belong to the statement itself (not to nested blocks or function
+// literals).
+func opIn(st ast.Stmt) string {
+	var exprs []ast.Node
+	switch x := st.(type) {
+	case *ast.ExprStmt:
+		exprs = append(exprs, x.X)
+	case *ast.AssignStmt:
+		for _, e := range x.Rhs {
+			exprs = append(exprs, e)
+		}
+	case *ast.ReturnStmt:
+		for _, e := range x.Results {
+			exprs = append(exprs, e)
+		}
+	case *ast.IfStmt:
+		if x.Init != nil {
+			exprs = append(exprs, x.Init)
+		}
+		exprs = append(exprs, x.Cond)
+	case *ast.SwitchStmt:
+		if x.Init != nil {
+			exprs = append(exprs, x.Init)
+		}
+		if x.Tag != nil {
+			exprs = append(exprs, x.Tag)
+		}
+	case *ast.RangeStmt:
+		exprs = append(exprs, x.X)
+	case *ast.IncDecStmt, *ast.SendStmt:
+		exprs = append(exprs, x)
+	case *ast.DeclStmt:
+		exprs = append(exprs, x)
+	}
+	found := ""
+	for _, e := range exprs {
+		ast.Inspect(e, func(n ast.Node) bool {
+			if found != "" {
+				return false
+			}
+			switch c := n.(type) {
+			case *ast.FuncLit, *ast.BlockStmt:
+				return false
+			case *ast.CallExpr:
+				if sel, ok := c.Fun.(*ast.SelectorExpr); ok && syncOps[sel.Sel.Name] {
+					// atomic.AddInt32(&x, 1) style and method style alike
+					found = sel.Sel.Name
+					return false
+				}
+				if sel, ok := c.Fun.(*ast.SelectorExpr); ok {
+					if id, ok := sel.X.(*ast.Ident); ok && id.Name == "atomic" {
+						found = sel.Sel.Name
+						return false
+					}
+				}
+			}
+			return true
+		})
+	}
+	return found
+}
+
 func instrument(rel string, data []byte) ([]byte, int, error) {
 	fset := token.NewFileSet()
 	f, err := parser.ParseFile(fset, rel, data, parser.ParseComments)
@@ -111,27 +182,43 @@ func instrument(rel string, data []byte) ([]byte, int, error) {
 		return data, 0, nil
 	}
 	var list []ins
+	point := func(site, kind string) string {
+		return fmt.Sprintf("simyield.Point(%q)", site+":"+kind)
+	}
 	visit := func(stmts []ast.Stmt) {
 		for _, s := range stmts {
-			es, ok := s.(*ast.ExprStmt)
-			if !ok {
-				continue
-			}
-			call, ok := es.X.(*ast.CallExpr)
-			if !ok || len(call.Args) != 0 {
-				continue
-			}
-			sel, ok := call.Fun.(*ast.SelectorExpr)
-			if !ok {
-				continue
-			}
-			pos := fset.Position(es.Pos())
+			pos := fset.Position(s.Pos())
 			site := fmt.Sprintf("%s:%d", filepath.ToSlash(rel), pos.Line)
-			switch sel.Sel.Name {
-			case "Lock", "RLock":
-				list = append(list, ins{pos.Offset, fmt.Sprintf("simyield.Point(%q); ", site+":before-"+strings.ToLower(sel.Sel.Name))})
-			case "Unlock", "RUnlock":
-				list = append(list, ins{fset.Position(es.End()).Offset, fmt.Sprintf("; simyield.Point(%q)", site+":after-"+strings.ToLower(sel.Sel.Name))})
+			// mutex statements: before-lock / after-lock / after-unlock
+			if es, ok := s.(*ast.ExprStmt); ok {
+				if call, ok := es.X.(*ast.CallExpr); ok && len(call.Args) == 0 {
+					if sel, ok := call.Fun.(*ast.SelectorExpr); ok {
+						end := fset.Position(es.End()).Offset
+						switch sel.Sel.Name {
+						case "Lock", "RLock":
+							list = append(list, ins{pos.Offset, point(site, "before-lock") + "; "})
+							list = append(list, ins{end, "; " + point(site, "after-lock")})
+							continue
+						case "Unlock", "RUnlock":
+							list = append(list, ins{end, "; " + point(site, "after-unlock")})
+							continue
+						}
+					}
+				}
+			}
+			// defer mu.Unlock(): defers run last-in first-out, so a point deferred
+			// just before it runs just after the unlock
+			if ds, ok := s.(*ast.DeferStmt); ok {
+				if sel, ok := ds.Call.Fun.(*ast.SelectorExpr); ok && len(ds.Call.Args) == 0 && (sel.Sel.Name == "Unlock" || sel.Sel.Name == "RUnlock") {
+					list = append(list, ins{pos.Offset, "defer " + point(site, "after-unlock") + "; "})
+				}
+				continue
+			}
+			if _, ok := s.(*ast.GoStmt); ok {
+				continue
+			}
+			if op := opIn(s); op != "" {
+				list = append(list, ins{pos.Offset, point(site, "before-"+strings.ToLower(op)) + "; "})
 			}
 		}
 	}
